@@ -95,8 +95,11 @@ pub struct Model {
     pub other_pp: BTreeMap<(usize, usize, u8), u32>,
     /// harness-made non-access edges from a principal straight to a secret node
     pub other_ps: BTreeMap<(usize, usize, u8), u32>,
-    /// delegation records: (parent, child) -> secrets
+    /// delegation records: (parent, child) -> every secret delegated while the record lives
     pub deleg: BTreeMap<(usize, usize), Vec<usize>>,
+    /// secrets named by the LAST delegate() call of the pair (classification of a failure only:
+    /// the record used to be overwritten by a repeated call)
+    pub deleg_last: BTreeMap<(usize, usize), Vec<usize>>,
     pub entries: Vec<Entry>,
     next_entry: u32,
     /// expired grants that have not seen a reaping point yet: (principal, secret, level)
@@ -153,6 +156,7 @@ impl Model {
             other_pp: BTreeMap::new(),
             other_ps: BTreeMap::new(),
             deleg: BTreeMap::new(),
+            deleg_last: BTreeMap::new(),
             entries: Vec::new(),
             next_entry: 0,
             stale: Vec::new(),
@@ -345,6 +349,7 @@ impl Model {
     /// does not exist: nothing the caller named was revoked, so keeping them is a legitimate reading).
     fn drop_delegation(&mut self, parent: usize, child: usize, upper: bool) {
         let Some(secs) = self.deleg.remove(&(parent, child)) else { return };
+        let last = self.deleg_last.remove(&(parent, child)).unwrap_or_default();
         let mut dead_entries = Vec::new();
         let mut orphans = Vec::new();
         for (&(p, s), gs) in self.up.iter_mut() {
@@ -356,7 +361,7 @@ impl Model {
                     if let Some(e) = g.entry {
                         dead_entries.push(e);
                     }
-                    if !secs.contains(&s) {
+                    if !last.contains(&s) {
                         orphans.push((child, s, g.level));
                     }
                     false
